@@ -145,7 +145,9 @@ def applyEdit (s : State) (e : Edit) (ch : Choice) : State × Strategy :=
         match e.adds, e.rmvs with
         | [[l]], [] =>
             let (cs, n) := adjust s.cur.clauses s.cur.nvars [[l]] []
-            ({ s with cur := { clauses := cs, nvars := n, den := s.cur.den ++ [[l]] }, cache := [] }, .unitClause)
+            -- every cached snapshot goes; the state right before this edit is cached under the edit, so
+            -- that the inverse restores it (feature count included)
+            ({ s with cur := { clauses := cs, nvars := n, den := s.cur.den ++ [[l]] }, cache := [(e, s.cur)] }, .unitClause)
         | _, _ =>
             match ch with
             | .splice => ({ s with tainted := true }, .subDag)
